@@ -94,8 +94,39 @@ def count_processor(u):
 
 def insert_processor(u):
     u.real_item(GEN, r"struct AsyncTempFile\b", lambda t: common.wrap(common.pub_fields(common.strip_doc(t))), "R7")
-    u.include("shims/tempfile_stub.rs")
-    u.raw("verus! {\nimpl AsyncTempFile {\n")
+    u.raw("verus! {\n#[derive(Debug)]\npub struct Infallible { pub _p: () }\n#[verifier::external_body]\n"
+          "pub fn string_from_str(s: &str) -> (r: Result<String, Infallible>) ensures r.is_ok() && r.unwrap()@ == s@ { unimplemented!() }\n"
+          "impl AsyncTempFile {\n")
+    # ---- AsyncTempFile::new: the real body over temp_dir / uuid / File::create shims -------------------------------------
+    f = u.real_fn(GEN, "new", scope=r"impl AsyncTempFile\b", owner="AsyncTempFile", props=("C04", "C07", "C08", "C17"))
+    rules.sig(f, ret="r", world=True)
+    rules.r13_reroot(f, {"use std::env::temp_dir;": "use tempshim::temp_dir;", "use uuid::Uuid;": "use tempshim::Uuid;"})
+    rules.r5_format(f, kinds={"Uuid::new_v4()": "uuid", "e": "display"}, min_count=1)
+    f.replace_all(r"String::from_str\s*\(", "string_from_str(", "R9", regex=True, min_count=1)
+    rules.r8_thread(f, [r"async_std::fs::File::create\("])
+    f.requires += [("C04.nowrite", "!old(w).check_mode"), ("C07.frame", "atomic_inv(*old(w))")]
+    f.ensures += [
+        ("C04.frame", "same_but_fs(*old(w), *final(w))"),
+        ("C08.tmp", "r.is_err() ==> final(w).fs == old(w).fs"),
+        # a fresh temporary file, no project file, created empty
+        ("C07.nonatomic,C08.tmp", "r.is_ok() ==> is_temp(r.unwrap().path@) && !old(w).fs.dom().contains(r.unwrap().path@)"),
+        ("C07.nonatomic", "r.is_ok() ==> final(w).fs == old(w).fs.insert(r.unwrap().path@, Seq::empty())"),
+        ("C07.path", "r.is_ok() ==> r.unwrap().file.path() == r.unwrap().path@ && r.unwrap().file.accepted() == Seq::<u8>::empty()"),
+    ]
+    f.at_start(" proof { axiom_temp_names(*w); reveal_strlit(\"breadlog-\"); reveal_strlit(\".tmp\");"
+               " assert(\"breadlog-\"@ =~= temp_prefix()); assert(\".tmp\"@ =~= temp_suffix()); }")
+    # ---- Drop for AsyncTempFile: the body as a method (that every value is dropped is Rust's ownership semantics) ------------
+    f = u.real_fn(GEN, "drop", scope=r"impl Drop for AsyncTempFile\b", owner="AsyncTempFile", props=("C04", "C07", "C08", "C17"))
+    rules.sig(f, ret=None, world=True)
+    rules.r13_reroot(f, {"use std::fs::remove_file;": "use tempshim::remove_file;"})
+    rules.r8_thread(f, [r"(?<![\w:])remove_file\("])
+    f.requires += [("C04.nowrite", "!old(w).check_mode"), ("C07.frame", "atomic_inv(*old(w))"), "is_temp(old(self).path@)"]
+    f.ensures += [
+        # the temporary file is removed whenever the environment lets it be removed
+        ("C08.tmp", "unlinkable(old(self).path@) ==> final(w).fs == old(w).fs.remove(old(self).path@)"),
+        ("C08.tmp", "!unlinkable(old(self).path@) ==> final(w).fs == old(w).fs"),
+        ("C04.frame", "same_but_fs(*old(w), *final(w)) && final(self).path == old(self).path"),
+    ]
     f = u.real_fn(GEN, "path", scope=r"impl AsyncTempFile\b", owner="AsyncTempFile", props=("C03", "C07", "C17"))
     rules.sig(f, ret="r")
     f.ensures.append(("C07.path", "r@ == self.path@"))
